@@ -4,7 +4,7 @@ from vlib import *
 from l2common import *
 import streams
 
-THEOREMS = {"C04": ["apply_patch_replay", "apply_patch_verdicts", "verdicts_are_admissible"],
+THEOREMS = {"C04": ["apply_patch_replay", "apply_patch_verdicts", "verdicts_are_admissible", "section_failure_flag"],
             "C05": ["reverse_hunk_involutive", "conforming_reverse", "apply_reverse"],
             "C06": ["reapply_ignored", "reapply_reversed", "force_no_guess"], "C15": ["dry_run_pure", "dry_run_predicts"], "C16": ["section_ops_allowed", "finalize_ops_allowed", "finalize_removals_allowed", "exec_op_frame"],
             "C17": ["write_now_sets_mode", "refusal_writes_only_rejects"],
